@@ -34,5 +34,12 @@ class Packet:
         self.current_time: SimTime = 0
         self.perhop_time = {}  # used by port to record per-hop arrival times
 
+    def __copy__(self) -> "Packet":
+        new = type(self).__new__(type(self))
+        new.__dict__.update(self.__dict__)
+        new.priorities = dict(self.priorities)
+        new.perhop_time = dict(self.perhop_time)
+        return new
+
     def __repr__(self) -> str:
         return f"packet id: {self.packet_id}, flow id: {self.flow_id}, src: {self.src}, time: {self.time}, size: {self.size}"
